@@ -472,7 +472,7 @@ func ruleNodeCopy(c *Ctx) {
 
 func init() {
 	register(&Rule{Name: "reslice.zero", Floor: 4,
-		Doc: "`x[:0]` re-uses the memory of x for what is appended next: it is only written where x is the function's own buffer (a local made or grown there) — or in the few documented in-place filters whose callers hand them a private copy (frozen list). Anywhere else the elements written land in a slice somebody else still reads: the caller's message, a cached committee",
+		Doc: "`x[:0]` re-uses the memory of x for what is appended next: it is only written where x is the function's own buffer (a local made or grown there, a local array, or a parameter of an unexported function that every caller hands its own buffer) — or in the few documented in-place filters whose callers hand them a private copy (frozen list). Anywhere else the elements written land in a slice somebody else still reads: the caller's message, a cached committee",
 		Run: ruleResliceZero})
 }
 
